@@ -584,6 +584,9 @@ func runScenario(seed int64, scen int, kind string, ops []string, more func(w *w
 		}
 		emit(seed, scen, w, "end", "-\t.")
 	}
+	for _, c := range w.conns.IDs() {
+		w.conns.RemoveConn(c[0])
+	}
 	w.atomix.Close()
 }
 
@@ -740,6 +743,29 @@ func genScenario(r *rand.Rand, steps int, k int) (string, []string, func(w *worl
 				c = cands[r.Intn(len(cands))]
 			}
 			return fmt.Sprintf("b:%d", c)
+		case x < 45 && ntx > 0:
+			// progress: reconcile the first transaction that is not terminal, completely, mostly with a willing device
+			i := ntx
+			for j := 1; j <= ntx; j++ {
+				t, err := w.txs.Get(context.Background(), configapi.TransactionID{Target: w.target, Index: configapi.Index(j)})
+				if err != nil {
+					continue
+				}
+				done := func(p *configapi.TransactionPhaseStatus) bool {
+					return p != nil && p.State >= configapi.TransactionPhaseStatus_COMPLETE
+				}
+				st := t.Status
+				if !(done(st.Change.Commit) && done(st.Change.Apply)) ||
+					st.Phase == configapi.TransactionStatus_ROLLBACK && !(done(st.Rollback.Commit) && done(st.Rollback.Apply)) {
+					i = j
+					break
+				}
+			}
+			c := "OK"
+			if r.Intn(7) == 0 {
+				c = []string{"InvalidArgument", "Internal", "Unknown", "DataLoss", "Unavailable"}[r.Intn(5)]
+			}
+			return fmt.Sprintf("r:%d:9:a:%s", i, c)
 		case x < 70:
 			i := 1
 			if ntx > 0 {
